@@ -339,7 +339,23 @@ def rule_e(ctx, ix):
                                         'tables, several image extensions) the decision (force_coords) is taken on the wrong count, and '
                                         'the session saved by reference does not restore' % (unparse(c)[:90], unparse(single[0])),
                           shape=unparse(c), where=where(f, cmp_))
-    if n < 1:
+    # what the log writes describes the file as it was read: it is computed from what was logged then (self.components, path,
+    # factory, kwargs).  The datasets themselves (self.data[k]) are live objects the user may have changed since (coords
+    # assigned, components added): they may be named (identity tests), not read.
+    from ..util import single_assignments
+    defs = single_assignments(f.node)
+    live_names = {k for k, v in defs.items() if isinstance(v, ast.Subscript) and unparse(v.value) == '%s.data' % s}
+    live = []
+    for a in ast.walk(f.node):
+        if isinstance(a, ast.Attribute) and isinstance(a.ctx, ast.Load):
+            b = a.value
+            if (isinstance(b, ast.Subscript) and unparse(b.value) == '%s.data' % s) or (isinstance(b, ast.Name) and b.id in live_names):
+                live.append(a)
+    ctx.ob(R, f.construct + ' live', 'the saved record is computed from what was logged at load time, not from the live datasets', not live,
+           detail='LoadLog.__gluestate__ reads `%s` of a dataset as it is now: after the user changed the loaded dataset (data.coords = ..., '
+                  'a component added) the record no longer describes what the file yields, and the session saved by reference does not '
+                  'restore (the logged component positions are shifted)' % (unparse(live[0]) if live else ''), where=f.where)
+    if n < 1 and not live:
         raise AnalysisError('LoadLog.__gluestate__: the coordinate-count heuristic is no longer recognised')
 
 
